@@ -27,7 +27,7 @@ RefInit(e) ==
    done |-> FALSE, signalled |-> FALSE, tSig |-> 0, tLastIn |-> 0, tFirstByte |-> -1, tShut |-> -1, tIdle |-> 0,
    lastEnded |-> [status |-> 0, m |-> "", total |-> 0, bodiless |-> FALSE], stalled |-> FALSE, wroteAny |-> FALSE,
    maxHeld |-> 0, tHead1 |-> -1, kaMayHaveFired |-> FALSE, anyCut |-> FALSE, doneErr |-> FALSE, tFinal |-> -1, sigTok |-> 0, t408 |-> -1, wpend |-> FALSE,
-   mem0 |-> -1, tAct |-> 0, tEof |-> -1, tAns |-> 0, closeI |-> 0, closeFed |-> -1, unlimited |-> (e.sock.budget < 0)]
+   mem0 |-> -1, tAct |-> 0, tEof |-> -1, tAns |-> 0, closeI |-> 0, closeFed |-> -1, tCloseFed |-> -1, unlimited |-> (e.sock.budget < 0)]
 
 NReq(rs) == Len(rs.gt)
 Faulted(rs) == rs.rstFed \/ (rs.eofFed /\ ~rs.cfg.half_closed)
@@ -151,7 +151,8 @@ Closed(rs, cur, e) ==
                                       total |-> (IF cur.i >= 1 /\ cur.i <= NReq(rs) THEN rs.pf[cur.i].total ELSE 0), bodiless |-> cur.bodiless]]
   IN IF cur.closing THEN [s1 EXCEPT !.final = TRUE, !.tFinal = e.t, !.tAct = e.t, !.tAns = e.t,
                                     !.finalWhy = (IF cur.standalone THEN "error-response" ELSE "close-response"),
-                                    !.closeI = cur.i]
+                                    !.closeI = cur.i,
+                                    !.tCloseFed = IF cur.i < 1 \/ cur.i > NReq(rs) \/ rs.fed >= rs.gt[cur.i].end THEN e.t ELSE -1]
      ELSE [s1 EXCEPT !.tAct = e.t, !.tAns = e.t]
 
 OnRespEnd(rs, e) ==
@@ -204,7 +205,10 @@ LingerPossible(rs) == \E i \in 1..rs.called : i <= NReq(rs) /\ (rs.gt[i].blen > 
 DiscBound(rs) == (IF LingerPossible(rs) THEN 2 ELSE 1) * rs.cfg.disc_ms + LAG
 ShutLate(rs, t) ==
   /\ rs.cfg.disc_ms > 0 /\ ~rs.done
-  /\ \/ (rs.final /\ t - rs.tFinal > DiscBound(rs))
+  \* after a closing response: counted from the moment the request it answers had been sent completely - an unread chunked
+  \* body is drained for as long as the client keeps sending it (an unread sized body is lingered on, bounded like a shutdown)
+  /\ \/ (rs.final /\ (rs.tCloseFed >= 0 \/ ~rs.gt[rs.closeI].chunked)
+         /\ t - (IF rs.tCloseFed > rs.tFinal THEN rs.tCloseFed ELSE rs.tFinal) > DiscBound(rs))
      \/ (Idle(rs) /\ rs.cfg.ka_ms > 0 /\ t - rs.tAct > rs.cfg.ka_ms + DiscBound(rs))
      \/ (HeadLate(rs, t) /\ t > rs.cfg.head_ms + DiscBound(rs))
      \* the peer half-closed and nothing is in flight: the connection is shut down
@@ -281,7 +285,9 @@ OnEnd(rs, e) ==
 
 RefStep0(rs, e) ==
   CASE e.ev = "Feed"     -> [rs EXCEPT !.fed = @ + e.n,
-                                       !.closeFed = IF @ < 0 /\ e.n > 0 /\ QuietAfterClose(rs) THEN rs.fed ELSE @, !.tLastIn = IF e.n > 0 THEN e.t ELSE @, !.tAct = e.t,
+                                       !.closeFed = IF @ < 0 /\ e.n > 0 /\ QuietAfterClose(rs) THEN rs.fed ELSE @,
+                                       !.tCloseFed = IF rs.final /\ @ < 0 /\ rs.closeI >= 1 /\ rs.closeI <= NReq(rs)
+                                                        /\ rs.fed + e.n >= rs.gt[rs.closeI].end THEN e.t ELSE @, !.tLastIn = IF e.n > 0 THEN e.t ELSE @, !.tAct = e.t,
                                        !.tHead1 = IF NReq(rs) > 0 /\ @ < 0 /\ rs.fed + e.n >= rs.gt[1].headlen THEN e.t ELSE @]
     [] e.ev = "Eof"      -> [rs EXCEPT !.eofFed = TRUE, !.tAct = e.t, !.tEof = IF @ < 0 THEN e.t ELSE @]
     [] e.ev = "Rst"      -> [rs EXCEPT !.rstFed = TRUE]
